@@ -392,6 +392,25 @@ pub fn run_c20(tier: Tier) -> i32 {
     if std::panic::catch_unwind(std::panic::AssertUnwindSafe(|| retry(&mut st, rl))).is_err() {
         st.failures.push(("C20-retry-panic".into(), crate::mock::take_panic()));
     }
+    // the same grids once more with every tracing callsite enabled (a TRACE-level formatting
+    // subscriber writing to a sink): tracing evaluates the fields of an event only when the
+    // callsite is enabled, so anything with an effect in there shows only in this regime
+    // (seeded change C20e: the retry policy consulted a second time inside a trace! field)
+    let before = st.failures.len();
+    crate::c16::with_regime(crate::c16::Regime::Fmt, || {
+        tracing::callsite::rebuild_interest_cache();
+        if std::panic::catch_unwind(std::panic::AssertUnwindSafe(|| round_robin(&mut st, 8))).is_err() {
+            st.failures.push(("C20-rr-panic".into(), crate::mock::take_panic()));
+        }
+        consistent_hash(&mut st);
+        if std::panic::catch_unwind(std::panic::AssertUnwindSafe(|| retry(&mut st, rl))).is_err() {
+            st.failures.push(("C20-retry-panic".into(), crate::mock::take_panic()));
+        }
+    });
+    tracing::callsite::rebuild_interest_cache();
+    for f in st.failures.iter_mut().skip(before) {
+        f.1 = format!("[TRACE-level subscriber installed] {}", f.1);
+    }
     // thread-level: loom over the extracted module text
     let loom_bin = verif_dir().join("target/loom/release/mc-loom");
     let mut loom_doc = json!({"run": false, "reason": "mc-loom binary not built"});
@@ -456,7 +475,7 @@ pub fn run_c20(tier: Tier) -> i32 {
         st.distinct.len() as u64,
         &st.failures,
         json!({"loom": loom_doc}),
-        "round robin: backends n in 1..5, every number of calls 0..12 x every pattern of which of two clones (sharing the cursor) issues each call: per-backend counts differ by <=1 at every prefix; 3 calls created then first-polled in every order (after 0..n earlier calls), re-polls do not move the cursor; thread level: loom explores the module text cut from load_balance.rs (std::sync -> loom::sync) with concurrent next() calls under a preemption bound. consistent hash: n in 1..5 x hashers (constant / request-derived / mixed) with values {0,1,n-1,n,n+1,2^63,u64::MAX} and RandomState: index always valid, equal requests -> same backend, across clones. retry: every result sequence of length <=4 over {Ok, Server error, DeadlineExceeded, Shutdown, Send failure, throttling error, Channel failure} x every policy table over (is_ok, attempt): identical Arc each time, attempts 1,2,3.., last result returned. distinct_nontrivial = distinct grid cells",
+        "round robin: backends n in 1..5, every number of calls 0..12 x every pattern of which of two clones (sharing the cursor) issues each call: per-backend counts differ by <=1 at every prefix; 3 calls created then first-polled in every order (after 0..n earlier calls), re-polls do not move the cursor; thread level: loom explores the module text cut from load_balance.rs (std::sync -> loom::sync) with concurrent next() calls under a preemption bound. consistent hash: n in 1..5 x hashers (constant / request-derived / mixed) with values {0,1,n-1,n,n+1,2^63,u64::MAX} and RandomState: index always valid, equal requests -> same backend, across clones. every grid runs a second time under a TRACE-level formatting subscriber (all tracing callsites enabled). retry: every result sequence of length <=4 over {Ok, Server error, DeadlineExceeded, Shutdown, Send failure, throttling error, Channel failure} x every policy table over (is_ok, attempt): identical Arc each time, attempts 1,2,3.., last result returned. distinct_nontrivial = distinct grid cells",
         st.samples.iter().map(|c| json!({"case": c})).collect(),
     )
 }
